@@ -338,6 +338,109 @@ def run_C10(run):
                       "value-chains-3ops", inv)
 
 
+def run_C17(run):
+    # every damage operator of the listed classes at every applicable position of every seed expression;
+    # only strings the REFERENCE parser rejects are emitted; Compile must return an error for each
+    run.gen_and_parse("MC_Damage", {}, "damaged-expressions", invariants=("Emit", "SeedsValid"))
+
+
+CHAR_CLASSES = {" ", "1", "a", "-", ".", ":", "*", "'", '"', "/", "(", ")", "[", "]", "@", ",", "|", "=", "!", "<", "+", "$", "#",
+                "~", "^", "`"}
+TOK_ALPHABET = [("name", "a"), ("name", "div"), ("name", "and"), ("name", "text"), ("name", "count"), ("name", "child"),
+                ("name", "p:a"), ("num", "1"), ("num", ".5"), ("lit", "'x'"), ("sym", "/"), ("sym", "//"), ("sym", "|"),
+                ("sym", "+"), ("sym", "-"), ("sym", "="), ("sym", "!="), ("sym", "<"), ("sym", ">="), ("sym", "*"),
+                ("sym", "("), ("sym", ")"), ("sym", "["), ("sym", "]"), ("sym", ","), ("sym", "@"), ("sym", "::"),
+                ("sym", "."), ("sym", ".."), ("sym", "$"), ("bad", "'x"), ("bad", "p:")]
+
+
+def run_C06(run):
+    q = run.tier == "quick"
+    # (1) recursion skeleton extracted from the working tree; TLC: every recursive cycle passes a depth guard
+    from runner import REPO
+    run.nstage += 1
+    skel = os.path.join(run.work, "%02d-skel.json" % run.nstage)
+    p = subprocess.run([run.xvh, "skel", "-repo", REPO, "-out", skel], capture_output=True, text=True)
+    if p.returncode != 0:
+        raise ToolingError("skeleton extraction failed: %s%s" % (p.stdout, p.stderr))
+    run.log(p.stdout.strip())
+    r = run.tlc("XStack", {}, invariants=("EveryCycleGuarded", "Report"), name="stack-skeleton", env_extra={"VERIF_TRACE": skel},
+                allow_violation=True, workers=4)
+    rep = None
+    if os.path.exists(r["outfile"]):
+        for line in open(r["outfile"]):
+            line = line.strip()
+            if line:
+                rep = json.loads(json.loads(line) if line.startswith('"') else line)
+                break
+    if rep is None:
+        raise ToolingError("XStack wrote no report:\n" + r["log"][-1500:])
+    cyc = set(rep["funcs"])
+    if not r["ok"] and not cyc:
+        raise ToolingError("XStack failed without reporting a cycle:\n" + r["log"][-1500:])
+    info = json.loads(subprocess.run([run.xvh, "deep", "-list"], capture_output=True, text=True).stdout)
+    run.stages.append({"stage": "stack-skeleton", "functions": rep["nfuncs"], "call_edges": rep["nedges"], "guarded": rep["guarded"],
+                       "unguarded_cycle_functions": sorted(cyc)})
+    if cyc:
+        covered = set()
+        for pat, fs in info["cycles"].items():
+            if set(fs) & cyc:
+                covered |= set(fs)
+        if not cyc <= covered | {"parseRelativeLocationPath"}:
+            raise ToolingError("TLC found an unguarded recursive cycle through %s for which the harness has no pump pattern: "
+                               "extend pumpPatterns/pumpCycles in harness/cmd/xvh/total.go" % sorted(cyc - covered))
+        run.notes.append("XStack: unguarded recursive cycle through %s (a lead; the verdict comes from pumping it on the real code)" % sorted(cyc))
+    # (2) pump every nesting pattern on the real code, each run in its own process (a stack overflow kills it)
+    depths = [100, 10000, 1000000] if q else [100, 10000, 100000, 1000000, 10000000]
+    npump = 0
+    for pat in info["patterns"]:
+        for d in depths:
+            try:
+                p = subprocess.run([run.xvh, "deep", "-pattern", pat, "-depth", str(d)], capture_output=True, text=True, timeout=120)
+                out = p.stdout.strip().splitlines()[-1] if p.stdout.strip() else ""
+                bad = None if (p.returncode == 0 and out in ("ok", "err")) else ("crash (exit %d): %s" % (p.returncode, (out or p.stderr[:300])))
+            except subprocess.TimeoutExpired:
+                bad = "no result within 120 s"
+            npump += 1
+            if bad:
+                run.mismatches.append({"stage": "pump", "flow": "B", "kind": "deep", "expr": "%s at depth %d" % (pat, d), "ctx": 0,
+                                       "fail": "crash-or-hang", "via": "Compile (subprocess)", "want": "expression or error",
+                                       "got": {"outcome": bad}, "case": {"pattern": pat, "depth": d}})
+                break   # deeper instances of the same pattern add nothing
+    run.evaluations += npump
+    run.traces += npump
+    run.stages.append({"stage": "pump", "patterns": len(info["patterns"]), "depths": depths, "runs": npump})
+    run.log("pump: %d patterns x depths %s: %d subprocess runs" % (len(info["patterns"]), depths, npump))
+    # (3) every character-class string / token string up to a length, plus seeded random strings and mutations
+    lex = {"MaxChars": 3 if q else 4, "MaxToks": 3 if q else 4, "CharClasses": CHAR_CLASSES}
+    g = run.tlc("MC_Lexical", lex, invariants=("Emit",), name="lexical-strings")
+    mm = g["outfile"] + ".mismatch"
+    st = g["outfile"] + ".stats"
+    p = subprocess.run([run.xvh, "total", "-in", g["outfile"], "-out", mm, "-stats", st, "-seed", str(run.seed),
+                        "-random", "20000" if q else "400000", "-corpus", os.path.join(VERIF, "corpus", "expressions.txt")],
+                       capture_output=True, text=True)
+    if p.returncode == 3:
+        run.mismatches.append({"stage": "totality", "flow": "B", "kind": "total", "expr": p.stderr.strip()[-300:], "ctx": 0, "fail": "hang",
+                               "via": "Compile", "want": "termination", "got": {}, "case": {}})
+    elif p.returncode != 0:
+        raise ToolingError("totality replay failed (%d): %s%s" % (p.returncode, p.stdout, p.stderr[-2000:]))
+    run.log(p.stdout.strip())
+    if os.path.exists(st):
+        stats = json.load(open(st))
+        run.traces += stats["cases"]
+        run.evaluations += stats["evaluations"]
+        run.distinct_nt = getattr(run, "distinct_nt", 0) + stats["distinct_nontrivial"]
+        run.samples += stats["samples"][:3]
+        run.stages.append({"stage": "totality", "inputs": stats["cases"], "compile_rounds": stats["evaluations"],
+                           "accepted": stats["nontrivial"], "observatory_ill_formed_but_accepted": stats["accepted_ill_formed"],
+                           "violations": stats["mismatches"]})
+        for line in open(mm):
+            m = json.loads(line)
+            m["stage"] = "totality"
+            m["flow"] = "B"
+            run.mismatches.append(m)
+    os.remove(g["outfile"])
+
+
 def run_C12(run):
     q = run.tier == "quick"
     # flat paths: exact document order; every node-set expression: protocol
@@ -400,6 +503,8 @@ PROPS = {
     "C04": {"run": run_C04},
     "C05": {"run": run_C05},
     "C10": {"run": run_C10},
+    "C06": {"run": run_C06},
+    "C17": {"run": run_C17},
     "C12": {"run": run_C12},
     "C14": {"run": run_C14},
     "C15": {"run": run_C15},
